@@ -28,6 +28,11 @@ CLAIMED = {
          "witness shipped_single_row_accepted for the repaired defect F11; the model decides accept/reject and the returned values BITWISE against the real classes "
          "on random domains and k-grid relations incl. perturbations straddling the allclose threshold, both file layouts, single-row/single-value files.",
          "4 C12", "Lean 4 proof (decision logic stated outright) + bit-exact differential correspondence"),
+ 'C09': ("Lean theorems about the closure model: py/hnc/msa/msA/msB_eq_published, core_branch (all closures, every r <= sigma), py/hnc/msa_linearises "
+         "(|c+u| <= 2(gamma^2+u^2) on |gamma|,|u| <= 1/2), elementwise, and for the shipped Martynov-Sarkisov expression ms_shipped_formula plus the negation witness "
+         "ms_shipped_not_zero_at_zero (known finding F6, pinned by a baseline test); the model is compared with all 8 classes/aliases on the real grid with bit-exact masks; "
+         "published relations and purity/element-wise probes are evaluated on the implementation.",
+         "4 C09", "Lean 4 proof (algebraic laws, exp inequalities) + differential correspondence"),
 }
 NA = {}
 def main():
